@@ -222,11 +222,19 @@ func genCase(t *rapid.T) Case {
 	case "create_key":
 		c.Update = p + `.["zz_new"] = ` + val
 	case "relative":
+		// the relative update in its two spellings: `|= . op v` and the compound `op= v`
+		compound := rapid.Bool().Draw(t, "compound")
 		switch x.n.T {
 		case "int", "float":
 			c.Update = p + " |= . + 1"
+			if compound {
+				c.Update = p + rapid.SampledFrom([]string{" += 1", " -= 1", " *= 2"}).Draw(t, "cop")
+			}
 		case "str":
 			c.Update = p + ` |= . + "_s"`
+			if compound {
+				c.Update = p + ` += "_s"`
+			}
 		default:
 			c.Update = p + " |= " + val
 		}
@@ -553,6 +561,13 @@ func check(c Case) hx.Verdict {
 	}
 	for p, r := range bt {
 		if !inside(p) && r.Kind == "alias" && insideAnchors[r.Value] {
+			// what can still be said: an update that keeps what its target holds (a relative update of a scalar, an
+			// append, a key creation) keeps the anchors in there, so the alias still has something to refer to
+			if c.Kind == "relative" || c.Kind == "append" || c.Kind == "create_key" {
+				if _, _, errLoad := tableOf(upd.Out); errLoad != nil {
+					return hx.Bad("", "the update leaves the document unreadable (%v) - an alias outside the target lost its anchor: u=%s\n%s\n=>\n%s", errLoad, c.Update, c.Text, upd.Out)
+				}
+			}
 			return hx.Unspec("alias_into_footprint")
 		}
 	}
